@@ -63,9 +63,9 @@ func txSQL(s string) string {
 
 // countDB counts the successful ExecContext calls of the script (restore statements excluded).
 type countDB struct {
-	db *sql.DB
-	mu sync.Mutex
-	ok int
+	db  *sql.DB
+	mu  sync.Mutex
+	ok  int
 	all int // every ExecContext issued
 }
 
